@@ -40,7 +40,8 @@ def cases(draw, tier="quick", dim=3):
         mode = draw(GEN.modes2d())
     n = len(sc["targets"])
     if mode in DIST:
-        pool = [0.2, 0.5, 1.0, 2.0, 4.0, 50.0] if dim == 3 else [2.0, 10.0, 50.0, 200.0, 1000.0]
+        # 0 is a legitimate (if extreme) distance threshold: nothing can beat it
+        pool = [0.0, 0.2, 0.5, 1.0, 2.0, 4.0, 50.0] if dim == 3 else [0.0, 2.0, 10.0, 50.0, 200.0, 1000.0]
     else:
         pool = [0.0, 0.1, 0.3, 0.5, 0.7, 0.9, 1.0]
     rows = []
@@ -153,7 +154,7 @@ def scene_cases(draw, tier="quick"):
         for g in f["gt"]:
             if g["label"] == "false_positive":
                 g["label"] = d["targets"][0]
-    pools = {"center": [0.3, 0.5, 1.0, 2.0, 4.0], "plane": [0.5, 1.0, 2.0, 3.0], "iou2d": [0.1, 0.3, 0.5, 0.7], "iou3d": [0.1, 0.2, 0.5]}
+    pools = {"center": [0.0, 0.3, 0.5, 1.0, 2.0, 4.0], "plane": [0.0, 0.5, 1.0, 2.0, 3.0], "iou2d": [0.1, 0.3, 0.5, 0.7], "iou3d": [0.1, 0.2, 0.5]}
     for k, pool in pools.items():
         a = draw(GEN.per_label(n, st.sampled_from(pool)))
         b = draw(GEN.per_label(n, st.sampled_from(pool)))
@@ -192,7 +193,7 @@ def scene_manager(ctx, d):
     ctx.cls("task_" + d["task"])
 
 
-# ---- exhaustive rankings: results at fixed distances, thresholds 0.5 <= 1.0 <= 5.0 ---------------
+# ---- exhaustive rankings: results at fixed distances, thresholds 0 <= 0.5 <= 1.0 <= 5.0 ---------------
 
 _RC = {}
 SYM = {"A": (0.2, 0.0), "B": (0.8, 0.0), "C": (3.0, 0.0), "H": (0.8, 1.5707963267948966), "F": None}
@@ -232,7 +233,7 @@ def rankings_exhaustive(ctx, d):
     car = D.label_type("car")
     prev = None
     vals = []
-    for thr in (0.5, 1.0, 5.0):
+    for thr in (0.0, 0.5, 1.0, 5.0):
         cur = []
         for tpm in (TPMetricsAp(), TPMetricsAph()):
             with ctx.under_test("Ap(...)"):
